@@ -93,10 +93,20 @@ def check(run, repo):
         'are parsed; unknown species must raise KeyError. check_element_balance is interpreted with symbolic '
         'compositions on reactions that are balanced / unbalanced by construction (reactants vs products, reactants '
         'vs transition state; an element off by one, missing on the other side, present only on the other side). '
+        'Round 2 of the white-box review: every blank-padded delimiter pair is also handed to from_string exactly as it '
+        'was printed (and, thorough tier, with one of the two trimmed); print->parse and parse cases with species names '
+        'written out (E1, e2, E2S, d3, _1, j, x1, A(g), *, X_1 ...: the literal text goes through the regular '
+        'expressions as it stands); a pattern of the parser whose match depends on the spelling of a name is a finding; '
+        'repeated species written with and without a blank after the coefficient; balance cases with compositions '
+        'written out that are off by 0.004 ... 1e-6 (a tolerance is not "exact"), symbolic totals off by 1/1000 and '
+        '1e-6, compositions that list an element with the count 0, the check called again after the reaction was '
+        'changed and on a second reaction; parse_formula called again after the caller modified the first result. '
         'ChemkinReaction.from_string is entered with every delimiter pair; the RING reader also reads a file whose last '
         'line has no newline. parse_formula is interpreted on abstract formulas with repeated symbols, missing and '
         'symbolic counts; the regular expressions are decided on the abstract strings by pmv/absre.py.')
     run.assumptions = ['species names contain neither the delimiters nor blanks and do not start with a digit',
+                       'collections.Counter addition: totals that are identically zero are dropped, symbolic totals are '
+                       'taken as positive' if counter_model_drops_zero(repo) else
                        'collections.Counter addition modelled as key-wise sum (its dropping of non-positive totals '
                        'is not modelled)']
     run.undecided = ['arbitrary user delimiters that occur inside names', 'coefficient precision beyond the printed '
@@ -141,7 +151,8 @@ def check(run, repo):
         txt = I.call_method(rxn, 'to_string', [], {'species_delimiter': sd, 'reaction_delimiter': rd,
                                                    'stoich_space': space, 'stoich_format': fmt})
         n += 1
-        calls = {(sd, rd)}
+        # (quick tier: as printed, for the default format; thorough: every format, each delimiter trimmed on its own)
+        calls = {(sd, rd)} if fmt == '.2f' or run.tier == 'thorough' else set()
         if run.tier == 'thorough':
             calls |= {(sd.strip(), rd), (sd, rd.strip())}
         calls = sorted(calls - {(sd.strip(), rd.strip())})
@@ -190,7 +201,7 @@ def check(run, repo):
                       if (n + k_call) % 41 == 0 else None)
         parser_hazards(run, I, label, owner_fs.module, fn_fs)
     run.floor('print/parse cases', n, 60)
-    run.floor('print/parse cases with blank-padded delimiters in the call', n_padded, 80)
+    run.floor('print/parse cases with blank-padded delimiters in the call', n_padded, 50)
     # printed without its transition state, a reaction parses back to the same reactants and products and no
     # transition state
     for sd, rd in (('+', '='), (' & ', '->')):
